@@ -14,10 +14,23 @@ from vcommon import COQ, GEN, REPO, ROOT, Check, InternalError, main_wrapper, ru
 sys.path.insert(0, str(ROOT / "harness"))
 
 MODES = ["ok", "raise", "exit3", "exit0", "base"]
+# bodies that fork once: <outcome of the body>+<how the child leaves> (quit = os._exit, exit0 / exit3 = sys.exit, raise)
+FORKS = ["ok+quit", "ok+exit0", "ok+exit3", "ok+raise", "raise+quit", "raise+exit0"]
+CEXIT = dict(quit="CQuit", exit0="(CExit 0)", exit3="(CExit 3)", **{"raise": "CRaise"})
 SUCCESS = {"ok", "exit0"}
+
+
+def pmode(m):
+    return m.split("+")[0]
+
+
+def g_fork(m):
+    return f"(Some {CEXIT[m.split('+')[1]]})" if "+" in m else "None"
+
+
 SIGNALS = ["KILL", "TERM", "INT"]
 OUTCOME = dict(ok="OOk", **{"raise": "ORaise"}, exit3="(OExit 3)", exit0="(OExit 0)", base="OBase")
-EVS = {"RegAtexit", "UnregAtexit", "SetTerm", "SetInt", "RestoreTerm", "RestoreInt", "Lock", "RmFailed", "BodyBegin",
+EVS = {"Fork", "RegAtexit", "UnregAtexit", "SetTerm", "SetInt", "RestoreTerm", "RestoreInt", "Lock", "RmFailed", "BodyBegin",
        "BodyEnd", "TouchDone", "WriteFailed", "RmPid", "Unlock"}
 PREFIXES = {"fresh": [], "done": ["ok"], "stale-failed": ["raise"]}
 
@@ -37,7 +50,7 @@ def g_waiter(w):
         return "None"
     if not w["fired"]:   # the second process did not wait for the lock: nothing the model can do (it blocks there)
         w = dict(w, sig="KILL", ctx="prop", pre=["<did not wait for the run lock>"])
-    return (f"(Some {{| w_out := {OUTCOME[w['mode']]}; w_death := (S{w['sig'].capitalize()}, C{w['ctx'].capitalize()}); "
+    return (f"(Some {{| w_out := {OUTCOME[pmode(w['mode'])]}; w_death := (S{w['sig'].capitalize()}, C{w['ctx'].capitalize()}); "
             f"w_pre := {glist(g_ev(e) for e in w['pre'])}; w_post := {glist(g_ev(e) for e in w['post'])}; "
             f"w_obs := {g_obs(w['obs'])} |}})")
 
@@ -46,9 +59,10 @@ def g_launch(l):
     death = "None"
     if l["fired"]:
         death = f"(Some (S{l['sig'].capitalize()}, C{l['ctx'].capitalize()}))"
-    return (f"{{| l_out := {OUTCOME[l['mode']]}; l_death := {death}; l_pre := {glist(g_ev(e) for e in l['pre'])}; "
+    return (f"{{| l_out := {OUTCOME[pmode(l['mode'])]}; l_death := {death}; l_pre := {glist(g_ev(e) for e in l['pre'])}; "
             f"l_post := {glist(g_ev(e) for e in l['post'])}; l_obs := {g_obs(l['obs'])}; "
-            f"l_waiter := {g_waiter(l.get('waiter'))}; l_again := {gbool(bool(l.get('killed_again')))} |}}")
+            f"l_waiter := {g_waiter(l.get('waiter'))}; l_again := {gbool(bool(l.get('killed_again')))}; "
+            f"l_fork := {g_fork(l['mode'])}; l_child := {glist(g_ev(e) for e in l.get('child', []))} |}}")
 
 
 def g_case(case):
@@ -62,8 +76,20 @@ EMPTY = dict(done=False, failed=None, pid=False, lockfree=True, B=0, E=0, X=0)
 def oracle_history(launches):
     """Yields (key, what, index) for every clause of the property that a launch of the history breaks."""
     before = EMPTY
+    tainted = False
     for i, l in enumerate(launches):
         a = l["obs"]
+        # a process forked by the body is not the job: it must leave the markers and the pid file alone
+        wrote = sorted(set(l.get("child", [])) & {"TouchDone", "WriteFailed", "RmPid", "RmFailed", "Lock"})
+        if wrote:
+            tainted = True
+            yield ("C10:marker-written-by-forked-child", "a process forked by the task body (it left through %s) did %s in the job "
+                   "directory while the job process was still in its body" % (
+                       {"exit0": "sys.exit(0)", "exit3": "sys.exit(3)", "raise": "an exception", "quit": "os._exit"}.get(
+                           l["mode"].split("+")[-1], "?"), ", ".join(wrote)), i)
+        if tainted:   # (what the markers say from here on has been reported under that key)
+            before = a
+            continue
         # success marker only if the body ran to completion
         if a["done"] and a["E"] < 1:
             yield ("C10:done-without-completed-body", "success marker present although the body never completed", i)
@@ -98,7 +124,7 @@ def oracle_history(launches):
                 yield ("C10:run-lock-taken-twice", "a second job process took the run lock while the first held it", i)
             if m["failed"] != b["failed"]:
                 yield ("C10:failure-marker-written-by-lock-waiter", how + ", wrote the failure marker", i)
-            elif not l["fired"] and l["mode"] in SUCCESS and a["done"] and a["failed"] is not None:
+            elif not l["fired"] and pmode(l["mode"]) in SUCCESS and a["done"] and a["failed"] is not None:
                 yield ("C10:failure-marker-written-by-lock-waiter", "both markers at the end of a double launch whose only run of the body succeeded", i)
             if b["pid"] and not m["pid"]:
                 yield ("C10:pid-file-removed-by-lock-waiter", how + ", removed the pid file", i)
@@ -122,10 +148,44 @@ def relaunches(rng, quick):
     k = rng.choice([1, 1, 1, 2] if quick else [1, 1, 2, 3])
     out = []
     for j in range(k):
-        l = dict(mode=rng.choice(MODES + ["ok", "ok"]))
+        l = dict(mode=rng.choice(MODES + ["ok", "ok"] + ([rng.choice(FORKS)] if rng.random() < 0.5 else [])))
         if j < k - 1 and rng.random() < 0.6:
             l.update(sig=rng.choice(SIGNALS), n=rng.randrange(1, 92))
         out.append(l)
+    return out
+
+
+def fork_cases(c, refs):
+    """Bodies that fork: death points from the first body line on - before the fork, after it (the job process must
+    still have its handlers and its exit callback), after the body."""
+    out = []
+    for r in refs:
+        if "+" not in r["mode"]:
+            continue
+        a = r["ans"][-1]
+        lines = a["lines"]
+        body = [n for n, t in enumerate(lines, 1) if t.startswith("task:")]
+        if "Fork" not in a["pre"] or not body:
+            continue   # (the reference run itself is judged by the oracle)
+        fork_n = a["pre_n"][a["pre"].index("Fork")]
+        after = [n for n in body if n > fork_n] or body[-1:]
+        before = [n for n in body if n <= fork_n]
+        tail = list(range(body[-1] + 1, len(lines) + 1)) or body[-1:]
+        if not c.quick:
+            step = 1 if r["mode"] in ("ok+quit", "ok+exit0") else 2
+            pts = [(n, sig) for n in range(body[0], len(lines) + 1, step) for sig in SIGNALS]
+        elif r["mode"] == "ok+quit":
+            # after the fork every body line with both termination signals; before it one signal per line
+            pts = [(n, sig) for n in after for sig in ("TERM", "INT")] + [(c.rng.choice(after), "KILL")]
+            pts += [(n, ("TERM", "INT")[j % 2]) for j, n in enumerate(before) if j % 2 == 0]
+            pts += [(n, SIGNALS[(n // 4) % 3]) for n in tail if n % 4 == 1]
+        else:
+            pts = [(after[0], "KILL"), (c.rng.choice(after), c.rng.choice(["TERM", "INT"])),
+                   (c.rng.choice(before), c.rng.choice(SIGNALS)), (c.rng.choice(tail), c.rng.choice(SIGNALS))]
+        for n, sig in pts:
+            out.append(dict(kind="fork", prefix=r["prefix"], mode=r["mode"],
+                            launches=[dict(mode=m) for m in PREFIXES[r["prefix"]]] + [dict(mode=r["mode"], sig=sig, n=n)]
+                            + relaunches(c.rng, True)))
     return out
 
 
@@ -142,7 +202,7 @@ def twice_cases(c, refs):
         first = r["pre_n"][0]     # from the registration of the exit callback on, a signal sets something off
         if c.quick:
             # mostly where the handling of the signal has several observable effects: once the lock is held
-            ns = sorted(c.rng.sample(range(r["lock_n"] + 1, nlines + 1), 8 if (prefix, mode) == ("fresh", "ok") else 4)
+            ns = sorted(c.rng.sample(range(r["lock_n"] + 1, nlines + 1), 6 if (prefix, mode) == ("fresh", "ok") else 3)
                         + [c.rng.randrange(first, r["lock_n"] + 1)])
             plan = [(n, c.rng.choice(["TERM", "INT"]), j) for n in ns for j in c.rng.sample(range(4), 2)]
         else:
@@ -213,7 +273,10 @@ def run(c: Check):
               "3rd line; thorough: every line), or from outside while blocked in lock.acquire after a generated delay; the "
               "directory is inspected, then the first process is let go and in 25-40 % of the cases gets its own signal "
               "(both die); SECOND DEATHS: TERM/INT at a line, then SIGKILL when j = 0..4 observable effects of its handling "
-              "are done; non-trivial = the signal was delivered, distinct by (kind, initial directory, outcome, signal, "
+              "are done; FORKING BODIES: the body forks once (os.fork; the child leaves by os._exit, sys.exit(0), sys.exit(3) or an "
+              "exception, the body then returns or raises), death points from the first body line on - quick: for the os._exit "
+              "child every body line after the fork x TERM/INT, every 2nd before it, every 4th line after the body; 4 points for "
+              "each other (outcome, child) pair; thorough: every line x 3 signals; non-trivial = the signal was delivered, distinct by (kind, initial directory, outcome, signal, "
               "line index / point, second signal)")
     if "model/Runner.v" in (COQ / "_CoqProject").read_text():
         c.build()
@@ -240,7 +303,7 @@ def run(c: Check):
         # reference executions: how many lines each (initial directory, outcome) executes, and which
         refs = []
         for pname, prefix in PREFIXES.items():
-            for mode in (MODES if pname != "done" else ["ok"]):
+            for mode in ((MODES + (FORKS if pname == "fresh" else [])) if pname != "done" else ["ok"]):
                 refs.append(dict(kind="ref", prefix=pname, mode=mode,
                                  launches=[dict(mode=m) for m in prefix] + [dict(mode=mode, ref=True)]))
         ans = run_impl("drive_c10.py", dict(scratch=str(scratch / "ref"), cases=refs), timeout=300)
@@ -254,6 +317,15 @@ def run(c: Check):
         sym = {"acquire": r0["lock_n"] or 1, "after-atexit": pn[0] + 1, "after-handlers": pn[2] + 1,
                "in-body": (r0["body_n"] or 0) + 1}
 
+        def at_effect(prefix, mode, eff, delta):
+            a = next(r for r in refs if (r["prefix"], r["mode"]) == (prefix, mode))["ans"][-1]
+            return max(1, a["pre_n"][a["pre"].index(eff)] + delta) if eff in a["pre"] else 1
+
+        sym["before-done-marker@stale-failed"] = at_effect("stale-failed", "ok", "TouchDone", 0)
+        sym["in-exit-cleanup@done"] = at_effect("done", "ok", "RmPid", 1)
+        sym["after-cleaned@raise"] = at_effect("fresh", "raise", "RmPid", -3)   # the line that calls rmfile(pidfile)
+        sym["after-fork"] = at_effect("fresh", "ok+quit", "Fork", 1)
+
         def resolve(l):
             l = dict(l)
             for k in ("n", "after_line"):
@@ -265,7 +337,10 @@ def run(c: Check):
 
         for g in json.load(open(ROOT / "golden" / "c10.json")):
             cases.append(dict(kind="golden", launches=[resolve(l) for l in g["launches"]]))
+        cases.extend(fork_cases(c, refs))
         for r in refs:
+            if "+" in r["mode"]:
+                continue
             if r["prefix"] == "stale-failed" and r["mode"] not in (("ok", "raise") if c.quick else ("ok", "raise", "exit3")):
                 continue  # a stale failure marker only adds RmFailed: fewer outcomes there
             lines = r["lines"]
@@ -328,11 +403,13 @@ def run(c: Check):
                 c.count("double-launch:" + ("both-die" if l["fired"] else "holder-ends-by-itself:" + l["mode"]))
                 c.nontrivial.add(("double", x.get("prefix"), l["mode"], w["sig"], w.get("n") or "ext", l["sig"] if l["fired"] else None))
         c.count("launches-per-history=%d" % len(x["ans"]))
-        if x["kind"] == "sweep":
+        if x["kind"] in ("sweep", "fork"):
             sw = x["ans"][len(PREFIXES[x["prefix"]])]
             c.count("initial:" + x["prefix"])
             if sw["fired"]:
                 c.nontrivial.add((x["prefix"], x["mode"], sw["sig"], sw["n"]))
+            if x["kind"] == "fork" and sw["fired"]:
+                c.count("forking-body:%s:%s-%s" % (x["mode"], sw["sig"], "after-the-fork" if "Fork" in sw["pre"] else "before-the-fork"))
         for key, what, i in oracle_history(x["ans"]):
             if key not in best or i < best[key][2]:
                 best[key] = (what, x, i)
@@ -350,7 +427,16 @@ def run(c: Check):
     # ---- correspondence inside Coq
     header = ("From Coq Require Import ZArith List Bool.\nFrom XV Require Import model.Runner corr.RunnerCorr.\n"
               "Import ListNotations.\nOpen Scope Z_scope.\n")
-    bad = c.corr_shards("corr", header, cases, g_case, "check_case", shard=300)
+    # which state of the code is under test?  A directed probe (the reference run whose forked child leaves with
+    # sys.exit(0)): without fixes/C10-3.diff the child creates the success marker (the oracle reports that under its
+    # own key); the correspondence then uses the literal model of that code
+    probe = [x for x in cases if x["kind"] in ("ref", "golden", "replay") for l in x["ans"] if l["mode"].endswith("+exit0")
+             and "TouchDone" in l.get("child", [])]
+    checker = "check_case_forkunsafe" if probe else "check_case"
+    c.extra["model_used_for_the_correspondence"] = (
+        "Guarded, fsafe = false (a forked child goes through the except clauses of TaskRunner.run: code before fixes/C10-3.diff)"
+        if probe else "Guarded, fsafe = true (all repairs)")
+    bad = c.corr_shards("corr", header, cases, g_case, checker, shard=150)
     if bad:
         sub = [cases[i] for i in bad]
         bad1 = set(c_diag(c, header, sub, "check_case_fixed"))
@@ -372,6 +458,8 @@ def run(c: Check):
         "two processes for one job: the second process's life lies entirely inside the first one's body (held by a latch); "
         "it never survives the first (that is the sequential history); its handler steps are not interleaved with steps "
         "of the first",
+        "forking bodies: one fork per body; the child's whole life is one moment of the body (the parent waits for it inside an "
+        "untraced helper: no death point between fork() and the child's end, no signal is sent to the child)",
         "pid reuse is outside the model (the pid file is present/absent, not a process identity): nothing is claimed about "
         "a left-over pid file naming a recycled pid",
         "the pid file is written by the launching side before the runner's first effect (the driver writes it right "
@@ -384,6 +472,8 @@ def seen(l):
              effects_after=l["post"], exit_status=l["rc"], directory=l["obs"])
     if l.get("killed_again"):
         d["then_SIGKILL_before"] = l["at2"]
+    if l.get("child"):
+        d["effects_inside_the_forked_child"] = l["child"]
     w = l.get("waiter")
     if w:
         d["second_process"] = dict(sig=w["sig"], at=w["at"], ctx=w["ctx"], sent_from_outside_while_blocked=w.get("ext") is not None,
